@@ -11,6 +11,11 @@
 #include <string>
 #include <typeinfo>
 #include <utility>
+#include <fcntl.h>
+#include <sstream>
+#include <sys/types.h>
+#include <sys/wait.h>
+#include <unistd.h>
 #if defined(__SANITIZE_ADDRESS__)
 #include <sanitizer/lsan_interface.h>
 #endif
@@ -200,15 +205,16 @@ static std::vector<std::string> split(const std::string& s, char c) {
     return out;
 }
 
-int main() {
-    vf::Case c;
-    while (vf::read_case(std::cin, c)) {
+// runs one word and prints its record (without the closing `end`)
+static void run_case(const vf::Case& c) {
+    {
         const long N = c.integer("pool");
         std::vector<Data*> slot(N, nullptr);
         const long p0 = Probe::live, m0 = MProbe::live;
         const long pc0 = Probe::ctors, pd0 = Probe::dtors, mc0 = MProbe::ctors, md0 = MProbe::dtors;
         const long bad0 = Probe::bad + MProbe::bad;
-        std::vector<std::vector<std::string>> lines;
+        vf::out_begin(c.id);
+        size_t step = 0;
         for (const std::string& tok : c.word("ops")) {
             std::vector<std::string> p = split(tok, ':');
             const std::string& k = p[0];
@@ -283,23 +289,103 @@ int main() {
             line.push_back(res);
             for (long i = 0; i < N; i++) line.push_back(slot_tok(slot[i]));
             line.push_back("L" + std::to_string(Probe::live - p0) + "," + std::to_string(MProbe::live - m0));
-            lines.push_back(line);
+            vf::out_word("r" + std::to_string(step++), line);
         }
         // end of the pool's scope: every container is destroyed
         { vf::Entry e("any::~any (end of scope)"); for (long i = 0; i < N; i++) { delete slot[i]; slot[i] = nullptr; } }
-#if defined(__SANITIZE_ADDRESS__)
-        // LeakSanitizer: report what this word leaked now, before the record is printed,
-        // so that the run stops at the offending case
-        if (__lsan_do_recoverable_leak_check()) { std::fprintf(stderr, "BFL_VERIF_LEAK LeakSanitizer: leak after case %s entry=any-leak\n", c.id.c_str()); std::fflush(stdout); std::_Exit(43); }
-#endif
-        vf::out_begin(c.id);
-        for (size_t k = 0; k < lines.size(); k++) vf::out_word("r" + std::to_string(k), lines[k]);
         vf::out_int("probe_live_end", Probe::live - p0);
         vf::out_int("mprobe_live_end", MProbe::live - m0);
         vf::out_int("probe_ctor_minus_dtor", (Probe::ctors - pc0) - (Probe::dtors - pd0));
         vf::out_int("mprobe_ctor_minus_dtor", (MProbe::ctors - mc0) - (MProbe::dtors - md0));
         vf::out_int("probe_bad_lifetime_events", Probe::bad + MProbe::bad - bad0);
-        vf::out_end();
+    }
+}
+
+// The words run in forked children, a batch at a time, so that a memory error in one word
+// cannot disturb the others.  A batch child buffers its records and prints them only if it
+// ended normally and (sanitizer build) LeakSanitizer finds nothing leaked.  A failing batch
+// is re-run one word per child; such a child streams its observation lines, and if it dies
+// the parent closes the record with `int crashed <status>` and `word sanitizer <kind>`
+// (classified from the child's stderr), so the oracle sees how far the word got.
+// (A leak check per word in one process would be exact too, but costs ~50 ms per word.)
+static int leak_check() {
+#if defined(__SANITIZE_ADDRESS__)
+    return __lsan_do_recoverable_leak_check() ? 1 : 0;
+#else
+    return 0;
+#endif
+}
+
+static int wait_status(pid_t pid) {
+    int status = 0;
+    if (waitpid(pid, &status, 0) < 0) { std::perror("waitpid"); std::exit(3); }
+    return WIFEXITED(status) ? WEXITSTATUS(status) : 128 + (WIFSIGNALED(status) ? WTERMSIG(status) : 0);
+}
+
+static int run_batch(const std::vector<vf::Case>& cs, size_t a, size_t b) {
+    std::cout.flush(); std::fflush(stdout); std::fflush(stderr);
+    pid_t pid = fork();
+    if (pid < 0) { std::perror("fork"); std::exit(3); }
+    if (pid == 0) {
+        int fd = open("/dev/null", O_WRONLY); if (fd >= 0) dup2(fd, 2);
+        std::ostringstream buf;
+        std::streambuf* old = std::cout.rdbuf(buf.rdbuf());
+        for (size_t i = a; i < b; i++) { run_case(cs[i]); vf::out_int("leaked", 0); std::cout << "end\n"; }
+        std::cout.rdbuf(old);
+        if (leak_check()) std::_Exit(77);
+        std::cout << buf.str(); std::cout.flush(); std::fflush(stdout);
+        std::_Exit(0);
+    }
+    return wait_status(pid);
+}
+
+static std::string classify(const std::string& err) {
+    static const char* pats[][2] = {
+        {"attempting double-free", "double-free"}, {"double free", "double-free"}, {"free(): invalid", "double-free"},
+        {"heap-use-after-free", "use-after-free"}, {"heap-buffer-overflow", "heap-buffer-overflow"},
+        {"alloc-dealloc-mismatch", "alloc-dealloc-mismatch"}, {"stack-buffer-overflow", "stack-buffer-overflow"},
+        {"SEGV", "segv"}, {"runtime error", "undefined-behaviour"}, {"terminate called", "uncaught-exception"}};
+    for (auto& p : pats) if (err.find(p[0]) != std::string::npos) return p[1];
+    return "none";
+}
+
+static void run_single(const vf::Case& c) {
+    std::cout.flush(); std::fflush(stdout); std::fflush(stderr);
+    int pe[2];
+    if (pipe(pe) != 0) { std::perror("pipe"); std::exit(3); }
+    pid_t pid = fork();
+    if (pid < 0) { std::perror("fork"); std::exit(3); }
+    if (pid == 0) {
+        close(pe[0]); dup2(pe[1], 2); close(pe[1]);
+        std::cout << std::unitbuf;
+        run_case(c);
+        vf::out_int("leaked", leak_check());
+        std::cout << "end" << std::endl;
+        std::fflush(stdout);
+        std::_Exit(0);
+    }
+    close(pe[1]);
+    std::string err; char b[4096]; ssize_t n;
+    while ((n = read(pe[0], b, sizeof b)) > 0) err.append(b, static_cast<size_t>(n));
+    close(pe[0]);
+    int st = wait_status(pid);
+    if (st != 0) {
+        std::cout << "\nint crashed " << st << "\nword sanitizer " << classify(err) << "\nend" << std::endl;
+        std::fprintf(stderr, "BFL_VERIF_HARNESS case %s: child ended with status %d: %s\n", c.id.c_str(), st,
+                     err.size() > 1500 ? err.substr(0, 1500).c_str() : err.c_str());
+    } else if (err.find("LeakSanitizer") != std::string::npos) {
+        std::fprintf(stderr, "BFL_VERIF_HARNESS case %s: %s\n", c.id.c_str(), err.size() > 1500 ? err.substr(0, 1500).c_str() : err.c_str());
+    }
+}
+
+int main() {
+    std::vector<vf::Case> cs;
+    { vf::Case c; while (vf::read_case(std::cin, c)) cs.push_back(c); }
+    const size_t B = 256;
+    for (size_t a = 0; a < cs.size(); a += B) {
+        size_t b = std::min(cs.size(), a + B);
+        if (run_batch(cs, a, b) == 0) continue;
+        for (size_t i = a; i < b; i++) run_single(cs[i]);
     }
     return 0;
 }
